@@ -203,31 +203,31 @@ Proof. exact (go_Has_model FieldR s n). Qed.
 (* ====================== CheckValid ====================== *)
 
 (* the error site classes of CheckValid / CheckOverlap as the translated source names them *)
-Definition cverr_go (e : cverr) : go_error :=
+Definition cverr_go (e : cverr) : go_err :=
   match e with
-  | CVOk => GoNil
-  | CVBadNumber => GoErr "err_invalid_field_number"
-  | CVBadRange => GoErr "err_invalid_range"
-  | CVOverlap => GoErr "err_overlapping_ranges"
+  | CVOk => ENil
+  | CVBadNumber => E_err_invalid_field_number
+  | CVBadRange => E_err_invalid_range
+  | CVOverlap => E_err_overlapping_ranges
   end.
 
 Lemma cverr_go_inj a b : cverr_go a = cverr_go b -> a = b.
 Proof. destruct a, b; cbn; intros H; try reflexivity; discriminate H. Qed.
 
 Definition enum_cv_fix :=
-  fix loop1 (rng1 : list (Z * Z)) (rix1 : Z) (v_rp : (Z * Z)) {struct rng1} : go_error :=
+  fix loop1 (rng1 : list (Z * Z)) (rix1 : Z) (v_rp : (Z * Z)) {struct rng1} : go_err :=
     match rng1 with
     | [] =>
-      GoNil
+      ENil
     | rhd1 :: rng1' =>
       let v_i := rix1 in
       let v_r := rhd1 in
       let v_r'1 := v_r in
       if (negb ((go_enumRange_Start v_r'1) <=? (go_enumRange_End v_r'1))) then
-        (GoErr "err_invalid_range")
+        E_err_invalid_range
       else
         if ((negb ((go_enumRange_End v_rp) <? (go_enumRange_Start v_r'1))) && (0 <? v_i)) then
-          (GoErr "err_overlapping_ranges")
+          E_err_overlapping_ranges
         else
           let v_rp := v_r'1 in
           loop1 rng1' (rix1 + 1) v_rp
@@ -249,25 +249,25 @@ Proof.
 Qed.
 
 Definition field_cv_fix (v_isMessageSet : bool) :=
-  fix loop1 (rng1 : list (Z * Z)) (rix1 : Z) (v_rp : (Z * Z)) {struct rng1} : go_error :=
+  fix loop1 (rng1 : list (Z * Z)) (rix1 : Z) (v_rp : (Z * Z)) {struct rng1} : go_err :=
     match rng1 with
     | [] =>
-      GoNil
+      ENil
     | rhd1 :: rng1' =>
       let v_i := rix1 in
       let v_r := rhd1 in
       let v_r'1 := v_r in
       if (negb (go_isValidFieldNumber (go_fieldRange_Start v_r'1) v_isMessageSet)) then
-        (GoErr "err_invalid_field_number")
+        E_err_invalid_field_number
       else
         if (negb (go_isValidFieldNumber (go_fieldRange_End v_r'1) v_isMessageSet)) then
-          (GoErr "err_invalid_field_number")
+          E_err_invalid_field_number
         else
           if (negb ((go_fieldRange_Start v_r'1) <=? (go_fieldRange_End v_r'1))) then
-            (GoErr "err_invalid_range")
+            E_err_invalid_range
           else
             if ((negb ((go_fieldRange_End v_rp) <? (go_fieldRange_Start v_r'1))) && (0 <? v_i)) then
-              (GoErr "err_overlapping_ranges")
+              E_err_overlapping_ranges
             else
               let v_rp := v_r'1 in
               loop1 rng1' (rix1 + 1) v_rp
@@ -302,7 +302,7 @@ Theorem go_FieldRanges_CheckValid_model ms s :
 Proof. rewrite go_FieldRanges_CheckValid_shape. now rewrite field_cv_fix_model by lia. Qed.
 
 Lemma go_CheckValid_nil_iff k ms s :
-  match k with EnumR => go_EnumRanges_CheckValid s | FieldR => go_FieldRanges_CheckValid s ms end = GoNil <->
+  match k with EnumR => go_EnumRanges_CheckValid s | FieldR => go_FieldRanges_CheckValid s ms end = ENil <->
   check_valid_loop k ms true (0, 0) s = CVOk.
 Proof.
   destruct k; [rewrite go_FieldRanges_CheckValid_model|rewrite (go_EnumRanges_CheckValid_model ms)];
@@ -312,7 +312,7 @@ Qed.
 (* ====================== CheckOverlap ====================== *)
 
 Definition overlap_fix (v_rps v_rqs : list (Z * Z)) :=
-  fix loop1 (lfuel : nat) (v_pi : Z) (v_qi : Z) {struct lfuel} : outcome go_error :=
+  fix loop1 (lfuel : nat) (v_pi : Z) (v_qi : Z) {struct lfuel} : outcome go_err :=
     match lfuel with
     | O => Fuel
     | S lfuel' =>
@@ -322,7 +322,7 @@ Definition overlap_fix (v_rps v_rqs : list (Z * Z)) :=
         bind (index_p v_rqs v_qi) (fun t2 =>
         let v_rq := t2 in
         if (negb (((go_fieldRange_End v_rp) <? (go_fieldRange_Start v_rq)) || ((go_fieldRange_End v_rq) <? (go_fieldRange_Start v_rp)))) then
-          Val (GoErr "err_overlapping_ranges")
+          Val E_err_overlapping_ranges
         else
           if ((go_fieldRange_Start v_rp) <? (go_fieldRange_Start v_rq)) then
             let v_pi := (wrap_i64 (v_pi + 1)) in
@@ -331,14 +331,14 @@ Definition overlap_fix (v_rps v_rqs : list (Z * Z)) :=
             let v_qi := (wrap_i64 (v_qi + 1)) in
             loop1 lfuel' v_pi v_qi))
       else
-        Val (GoNil)
+        Val (ENil)
     end.
 
 Lemma go_FieldRanges_CheckOverlap_shape p q :
   go_FieldRanges_CheckOverlap p q = overlap_fix p q (S (length p + length q)) 0 0.
 Proof. reflexivity. Qed.
 
-Definition overlap_go (b : bool) : go_error := if b then GoErr "err_overlapping_ranges" else GoNil.
+Definition overlap_go (b : bool) : go_err := if b then E_err_overlapping_ranges else ENil.
 
 Lemma skipn_nth_cons {A} (l : list A) i d : (i < length l)%nat -> skipn i l = nth i l d :: skipn (S i) l.
 Proof.
@@ -404,7 +404,7 @@ Section GoAnySort.
   Lemma go_has_iff_member ms n :
     (go_has s n = Val true \/ go_has s n = Val false) /\
     (go_has s n = Val true -> exists r, In r l /\ contains k r n) /\
-    (go_cv ms = GoNil -> (go_has s n = Val true <-> exists r, In r l /\ contains k r n)).
+    (go_cv ms = ENil -> (go_has s n = Val true <-> exists r, In r l /\ contains k r n)).
   Proof.
     subst go_has go_cv. cbv beta.
     destruct (go_Has_model k s n s_len) as (b & Hb & Hg).
@@ -421,7 +421,7 @@ Section GoAnySort.
   Qed.
 
   Lemma go_check_valid_spec ms :
-    go_cv ms = GoNil <-> Forall (range_ok k ms) l /\ ForallOrdPairs (disjoint k) l.
+    go_cv ms = ENil <-> Forall (range_ok k ms) l /\ ForallOrdPairs (disjoint k) l.
   Proof.
     subst go_cv. cbv beta. rewrite go_CheckValid_nil_iff. apply any_check_valid_spec; auto.
   Qed.
@@ -430,10 +430,10 @@ End GoAnySort.
 (* CheckOverlap of the translated source on any two sorted copies that pass the translated CheckValid *)
 Lemma go_check_overlap_spec p q ps qs msp msq :
   Permutation ps p -> Permutation qs q -> len ps + len qs <= max_len ->
-  go_FieldRanges_CheckValid ps msp = GoNil -> go_FieldRanges_CheckValid qs msq = GoNil ->
-  (go_FieldRanges_CheckOverlap ps qs = Val GoNil \/
-   go_FieldRanges_CheckOverlap ps qs = Val (GoErr "err_overlapping_ranges")) /\
-  (go_FieldRanges_CheckOverlap ps qs = Val (GoErr "err_overlapping_ranges") <->
+  go_FieldRanges_CheckValid ps msp = ENil -> go_FieldRanges_CheckValid qs msq = ENil ->
+  (go_FieldRanges_CheckOverlap ps qs = Val ENil \/
+   go_FieldRanges_CheckOverlap ps qs = Val E_err_overlapping_ranges) /\
+  (go_FieldRanges_CheckOverlap ps qs = Val E_err_overlapping_ranges <->
    exists rp rq, In rp p /\ In rq q /\ intersects FieldR rp rq = true).
 Proof.
   intros Pp Pq Hm Vp Vq.
